@@ -97,6 +97,54 @@ CLAIMS["C28"] = {
             "and z3 refutes that a rendered true/false or integer token disagrees with the symbolic leaf.",
     "note": S_NOTE + " i64::to_string behind StringFromInt is trusted (opaque decimal-of token).",
 }
+TV_NOTE = (S_NOTE + " R (/verif/symex/refsem.py), a symbolic interpreter of the source AST written from the language reference, is the "
+           "reference semantics and is trusted; the program dimension is a generated finite template family stated in the evidence, the value "
+           "dimension (all 64-bit ints, bools, array contents) is the solver's.")
+CLAIMS["C02"] = {
+    "engine": "S+R", "level": "translation_validation",
+    "technique": "translation validation: symbolic execution of the real compiler's bytecode vs a symbolic reference interpreter of the source; z3 decides every joint path pair",
+    "text": "Each template program is compiled by the real compiler; engine S enumerates every bytecode path with symbolic inputs and the "
+            "reference interpreter R enumerates every source-level path; for every pair of path conditions that is jointly satisfiable z3 must "
+            "refute that results, printed output or the way the run ends differ. This covers all inputs of each template (overflow, division by "
+            "zero, out-of-range index, short-circuit, control transfer out of operand positions), where a test fixes one input. Disagreements are "
+            "replayed on the real VM; known findings are keyed by template.",
+    "note": TV_NOTE,
+}
+CLAIMS["C05"] = {
+    "engine": "S+R", "level": "translation_validation",
+    "technique": "translation validation with the peephole optimizer on and off (hook ABRA_VERIF_NO_OPT): symbolic execution of both bytecodes vs the reference, z3 per joint path; literal vs variable operand forms compared by z3",
+    "text": "Every operator template in variable, literal-operand (0, 1, -1, 7, MAX, MIN), literal-left and compound-assignment form is compiled "
+            "twice by the real compiler (optimizer on / off) and both bytecodes are validated against R for all inputs; float immediates are "
+            "compared S-vs-S with the variable form for all non-NaN x, and the constant fold of 1.0 / 0.0 must keep the error. A fold rule or an "
+            "immediate arm that differs for one operand value is a z3 model, replayed on the real VM.",
+    "note": TV_NOTE + " The Kani-level validation of optimize() itself did not finish (900 s, Vec<Line> with String payloads) and is not part of the claim.",
+}
+CLAIMS["C18"] = {
+    "engine": "S", "level": "model_checking",
+    "technique": "symbolic execution of the real compiler's bytecode for every call shape (names, order, omissions) with symbolic argument values; z3 refutes any difference from the positional call",
+    "text": "All parameter lists of arity <= 3 with every defaulted suffix and every call shape (positional prefix, every permutation of named "
+            "arguments, every omission of defaulted parameters) for free functions, member functions, struct constructors and enum variant "
+            "constructors are compiled by the real compiler; the callee returns its parameters and z3 refutes, for all argument values, that any "
+            "parameter receives a value other than in the positional call with defaults filled in. A call shape the compiler panics on is a "
+            "violation. The diagnostics half of the property is not claimed.",
+    "note": S_NOTE,
+}
+CLAIMS["C19"] = {
+    "engine": "S+R", "level": "translation_validation",
+    "technique": "translation validation of closure capture templates: symbolic execution of compiled lambdas vs reference closures, z3 per joint path",
+    "text": "Lambda templates (capture of locals / parameters / outer captures at nesting depth <= 3, capture by value at creation, lambdas "
+            "stored in arrays and returned from functions, multiple closures over the same variable) are compiled by the real compiler and "
+            "validated against R for all values of the captured variables and arguments.",
+    "note": TV_NOTE,
+}
+CLAIMS["C23"] = {
+    "engine": "S+R", "level": "translation_validation",
+    "technique": "translation validation of `?`/`!` templates over symbolic option/result values: symbolic execution of the compiled code vs the reference, z3 per joint path",
+    "text": "Templates using `?` and `!` on option and result values in statement, operand, loop and nested-function positions are compiled by the "
+            "real compiler; the scrutinee's variant and payload are symbolic, so both the pass-through and the early-return/abort path are "
+            "covered for all payloads, and z3 must refute a difference in result, output or termination against R.",
+    "note": TV_NOTE,
+}
 NOT_APPLICABLE = {
     "C03": "quantifies over programs only; the failing behaviour is a panic inside the translator for a program shape. The program cannot be made symbolic through the parser/resolver/type checker (one hash-map insert = 1.7 M SAT variables, measured).",
     "C20": "decided entirely inside the resolver/type checker for a given program; no value-level quantifier for a solver to discharge.",
